@@ -1,6 +1,7 @@
 import LyModel.Props.C15
 #print axioms LyModel.Props.C15.path_buffer_in_bounds
 #print axioms LyModel.Props.C15.static_buffer_terminated_fails
+#print axioms LyModel.Props.C15.static_buffer_terminated_fixed
 #print axioms LyModel.Props.C15.static_buffer_terminated_partial
 #print axioms LyModel.Props.C15.pred_roundtrip_fails
 #print axioms LyModel.Props.C15.pred_roundtrip_partial
